@@ -5,12 +5,14 @@
     are proved; through a message body these fields come back unchanged: descriptor strings in every layout
     that has them ([C17_descriptor_roundtrip], from C01's induction, Proofs/RoundTrip.v) and the text of
     message 1029 ([C17_text_roundtrip_1029], Proofs/TextRoundTrip.v).
-    PARTIAL only in that the frame wrapper around the 1029 body (number, length, CRC) is covered by the
-    correspondence; for the descriptor layouts it is C01_build_decodes. *)
+    [C17_frame_1029] lifts it to the public API: the frame build_message returns for a 1029 message, from any
+    builder history, is accepted, carries the number 1029 and get_message returns the 1029 message with that
+    text (never Corrupt); for the descriptor layouts the same is C01_build_decodes. *)
 From Coq Require Import ZArith List Lia Bool.
 From RtcmModel Require Import Types BitIO Field Text Layout Message Top.
 From RtcmGen Require Import GenFields GenSignals GenLayouts GenMessages.
-From RtcmProofs Require Import ListZ TextProofs SizeProofs DecodeTotal FieldProofs RoundTrip TextRoundTrip.
+From RtcmModel Require Import Frame.
+From RtcmProofs Require Import ListZ TextProofs SizeProofs DecodeTotal FieldProofs RoundTrip TextRoundTrip BuilderProofs BuildProofs RoundTripFrame EncodeTotalAll EncodeFrameAll Ext2Special RoundTripAll.
 Import ListNotations.
 Open Scope Z_scope.
 
@@ -110,9 +112,52 @@ Example C17_example_1029 :
   end.
 Proof. vm_compute. split; reflexivity. Qed.
 
+(** ---------- message 1029 at the public API ---------- *)
+Lemma caps_nonneg17 : 0 <= SAT_CAP_1059 /\ 0 <= SAT_CAP_1065.
+Proof. split; vm_compute; discriminate. Qed.
+Lemma layouts_fit17 : forallb (fun m => frag_wfb (snd m) && (12 + max_bits SAT_CAP_1059 SAT_CAP_1065 (snd m) <=? 8184)) messages = true.
+Proof. vm_compute. reflexivity. Qed.
+Lemma numbers_fit17 : forallb (fun m => (0 <=? fst m) && (fst m <? 4096)) messages = true.
+Proof. vm_compute. reflexivity. Qed.
+
+Theorem C17_frame_1029 : forall b v1 v2 v3 cs fr,
+  reach sig_table ssr_table_1059 ssr_table_1065 SAT_CAP_1059 SAT_CAP_1065 messages b -> forallb scalar_ok cs = true ->
+  snd (t_build b (MTyped 1029 (VStruct [v1; v2; v3; VStr cs]))) = Ok fr ->
+  exists f v1' v2' v3', frame_new fr = Ok f /\ fr_number f = Some 1029 /\
+    t_from_frame f = Ok (MTyped 1029 (VStruct [v1'; v2'; v3'; VStr (firstn (fit_count 255 0 cs) cs)])).
+Proof.
+  intros b v1 v2 v3 cs fr Hreach Hs H. unfold t_build in H.
+  rewrite (history_independent sig_table ssr_table_1059 ssr_table_1065 SAT_CAP_1059 SAT_CAP_1065 messages b _ Hreach) in H.
+  unfold build_fresh, build in H. cbn [builder_new b_has_run b_data] in H. change (211 :: repeat 0 1028) with fresh_data in H.
+  destruct (build_on sig_table ssr_table_1059 ssr_table_1065 SAT_CAP_1059 SAT_CAP_1065 messages fresh_data _) as [[fr0 d']|e|] eqn:Hb; cbn [snd] in H; try discriminate.
+  inversion H; subst fr0. clear H.
+  set (QB := fun v : val => exists a1 a2 a3 c, v = VStruct [a1; a2; a3; VStr c] /\ forallb scalar_ok c = true).
+  set (RB := fun v v' : val => exists a1 a2 a3 c a1' a2' a3', v = VStruct [a1; a2; a3; VStr c] /\ v' = VStruct [a1'; a2'; a3'; VStr (firstn (fit_count 255 0 c) c)]).
+  assert (Hfr : framed (t_encode_frag layout_1029)).
+  { apply (tail_frame sig_table ssr_table_1059 ssr_table_1065 SAT_CAP_1059 SAT_CAP_1065 layout_1029). vm_compute. reflexivity. }
+  assert (HaccB : forall d v d1 o1, bytes_ok d = true -> t_encode_frag layout_1029 (d, 12) v = Ok (d1, o1) ->
+            12 <= o1 /\ bytes_ok d1 = true /\ zlen d1 = zlen d /\ agree d d1 0 12 /\ (QB v -> exists v', t_decode_frag layout_1029 d1 12 = Ok (v', o1) /\ RB v v')).
+  { intros d v d1 o1 Hbd E. destruct (Hfr d 12 v d1 o1 Hbd ltac:(lia) E) as [M [B [L A]]].
+    split; [exact M|]. split; [exact B|]. split; [exact L|]. split; [exact A|].
+    intros [a1 [a2 [a3 [c [-> Hc]]]]]. destruct (C17_text_roundtrip_1029 d a1 a2 a3 c d1 o1 Hbd Hc E) as [a1' [a2' [a3' D]]].
+    eexists. split; [exact D|]. exists a1, a2, a3, c, a1', a2', a3'. split; reflexivity. }
+  assert (Hext2B : ext2 (t_decode_frag layout_1029)).
+  { change layout_1029 with (FStruct ([FField df003; FField df051; FField df052] ++ [FUtf8])). unfold t_decode_frag.
+    apply (tail_ext2 sig_table ssr_table_1059 ssr_table_1065 SAT_CAP_1059 SAT_CAP_1065 FUtf8 (fun _ => False) (fun _ _ => True)).
+    - intros; contradiction.
+    - cbn [decode_frag]. exact decode_utf8_ext2.
+    - intros d off v off' Hbd Ho E. cbn [decode_frag] in E. eapply decode_utf8_mono; eassumption.
+    - vm_compute. reflexivity. }
+  destruct (build_decodes_gen sig_table ssr_table_1059 ssr_table_1065 SAT_CAP_1059 SAT_CAP_1065 messages (proj1 caps_nonneg17) (proj2 caps_nonneg17) layouts_fit17 numbers_fit17
+              layout_1029 QB RB HaccB Hext2B 1029 _ fr d' eq_refl Hb ltac:(exists v1, v2, v3, cs; split; [reflexivity|exact Hs]))
+    as [f [v' [Hn [Hnum [Hfrom [[a1 [a2 [a3 [c [a1' [a2' [a3' [E1 E2]]]]]]]] _]]]]]].
+  inversion E1; subst a1 a2 a3 c. subst v'. exists f, a1', a2', a3'. repeat split; assumption.
+Qed.
+
 Print Assumptions C17_df88591_from_str.
 Print Assumptions C17_array_string_prefix.
 Print Assumptions C17_utf8_valid.
 Print Assumptions C17_invalid_utf8_rejected.
 Print Assumptions C17_descriptor_roundtrip.
 Print Assumptions C17_text_roundtrip_1029.
+Print Assumptions C17_frame_1029.
